@@ -222,6 +222,28 @@ func lcRoachSrc(idx, variant int, bias bool, k int) string {
 	case 4:
 		r := configure([]string{pickPort(5), pickPort(6)}, []float64{1e5})
 		dastard.VerifNote(fmt.Sprintf("obs.cfgLen.%d", r))
+	case 5:
+		// TWO devices (2 and 3 channels), a sender for each: Start must succeed with 5 channels and blocks must flow
+		for try := 0; try < 10; try++ {
+			h1, h2 := pickPort(2*try+20), pickPort(2*try+21)
+			if portFree(h1) == 1 && portFree(h2) == 1 && configure([]string{h1, h2}, []float64{1e4, 1e4}) == 0 {
+				var s1, s2 uint64 = 1000, 1000
+				snd1 := startSender(h1, func() [][]byte { d := roachDatagram(2, 10, s1); s1 += 10; return [][]byte{d} })
+				snd2 := startSender(h2, func() [][]byte { d := roachDatagram(3, 10, s2); s2 += 10; return [][]byte{d} })
+				host = h1
+				s := startRPC()
+				if s.wait(4*time.Second) && s.ret == 0 {
+					h.ds = sc.VerifActiveSource()
+					flowing := waitBlocks(2, 3*time.Second)
+					dastard.VerifNote(fmt.Sprintf("obs.multi.%d.%d", h.ds.Nchan(), b2i(flowing)))
+					stopRPC().wait(4 * time.Second)
+					observe("multi")
+				}
+				snd1.halt()
+				snd2.halt()
+				break
+			}
+		}
 	}
 	// whatever happened: the same object can be configured and run again
 	if round(1, false) {
